@@ -366,3 +366,74 @@ BITSTRING_MODELS = {
     'bitstring.Bits': bits_ctor,
     'bitstring.ConstBitStream': lambda eng, e, a, kw: BitStreamModel(kw['bytes']),
 }
+
+
+# ----------------------------------------------------------------------------- a stream of chunks with symbolic lengths
+class SizedStream:
+    """An output stream whose content is a sequence of chunks (length term, content tag); lengths may be symbolic.
+    tell() is the sum of the lengths before the cursor; seek(p) must land on a chunk boundary that is syntactically the
+    offset of a chunk start (back-patching a length field), a write there must replace a chunk of the same length."""
+    py_types = ('BytesIO',)
+
+    def __init__(self, initial_len):
+        self.chunks = [(zint(initial_len), ('existing',))]     # what was in the stream before
+        self.cursor = None                                      # None = at the end; else index of the chunk to overwrite
+
+    def offset_of(self, k):
+        t = z3.IntVal(0)
+        for n, _ in self.chunks[:k]:
+            t = t + n
+        return z3.simplify(t)
+
+    def end(self):
+        return self.offset_of(len(self.chunks))
+
+    def method(self, eng, name, args, kwargs, e):
+        if name == 'tell':
+            return self.end() if self.cursor is None else self.offset_of(self.cursor)
+        if name == 'seek':
+            whence = args[1] if len(args) > 1 else 0
+            if whence == 2 and args[0] == 0:
+                self.cursor = None
+                return self.end()
+            if whence != 0:
+                raise Unsupported('seek whence')
+            pos = z3.simplify(zint(args[0]))
+            for k in range(len(self.chunks) + 1):
+                if z3.simplify(self.offset_of(k) - pos).eq(z3.IntVal(0)):
+                    self.cursor = None if k == len(self.chunks) else k
+                    return pos
+            # not syntactically a chunk boundary: a position the writer cannot justify
+            eng.oblige('safety', 'stream.seek.chunk_boundary', z3.BoolVal(False))
+            from ..engine import PathCut
+            raise PathCut()
+        if name == 'write':
+            v = args[0]
+            n, tag = (v.n, ('value', v.u)) if isinstance(v, Packed) else \
+                ((len(v), ('bytes', v)) if isinstance(v, bytes) else (None, None))
+            if n is None:
+                raise Unsupported('write of an unsized value')
+            if self.cursor is None:
+                self.chunks.append((z3.IntVal(n), tag))
+            else:
+                old_n, _ = self.chunks[self.cursor]
+                eng.oblige('safety', 'stream.overwrite.same_length', z3.simplify(old_n - n) == 0)
+                self.chunks[self.cursor] = (z3.IntVal(n), tag)
+                self.cursor = self.cursor + 1 if self.cursor + 1 < len(self.chunks) else None
+            return n
+        if name == 'getvalue':
+            return self
+        raise Unsupported(f'stream.{name}')
+
+    def append_abstract(self, length, tag):
+        if self.cursor is not None:
+            raise Unsupported('abstract write in the middle of the stream')
+        self.chunks.append((zint(length), tag))
+
+    def value_at(self, pos):
+        """the integer written in the chunk that starts at offset pos (None if there is no such chunk)"""
+        pos = z3.simplify(zint(pos))
+        for k, (n, tag) in enumerate(self.chunks):
+            if z3.simplify(self.offset_of(k) - pos).eq(z3.IntVal(0)) and tag[0] == 'value':
+                return tag[1]
+        return None
